@@ -6,6 +6,7 @@
 (***************************************************************************)
 EXTENDS Compare, Word32, TraceBase
 T == INSTANCE Text WITH CAP1 <- 64, CAP2S <- 32, CAP2L <- 64
+Msg == INSTANCE Messages
 VARIABLES l, tg, pa
 vars == <<l, tg, pa>>
 Ev(k) == l <= NRec /\ Rec[l].ev = k
@@ -135,6 +136,7 @@ EvCmpStr == /\ Ev("cmpstr")
                             ELSE E.r.ok = "err", <<l, "cmpstr", qa.ok, qb.ok>>)
                   /\ Drift((qa.ok /\ qb.ok) \/ (E.r.side = (IF ~qa.ok THEN "Left" ELSE "Right")
                                                 /\ E.r.origin = (IF ~qa.ok THEN qa.origin ELSE qb.origin)), <<l, "cmpstr-error-side">>)
+                  /\ Drift((qa.ok /\ qb.ok) \/ E.r.msg = Msg!ParseErrorEitherMsg(E.r.side, E.r.kind, E.r.origin, E.r.off), <<l, "cmpstr-error-message">>)
             /\ Stateless
 (* position array element: "contains a run of at least len one bits" (x as four 16-bit limbs, low first) *)
 XBit(x, i) == (x[(i \div 16) + 1] \div 2^(i % 16)) % 2
